@@ -35,6 +35,8 @@ func runC18(w *World, r *Report) {
 	c18TagsSorted(w, r)
 	c18SameParser(w, r)
 	c18Resolve(w, r)
+	c18FreshRead(w, r)
+	c18ResolveAlways(w, r)
 }
 
 // c18Filter is shared with C20/NIL-ELEM (rule name passed in).
@@ -942,4 +944,98 @@ func c18SameParser(w *World, r *Report) {
 		}
 	}
 	r.Check(bad == "" && n > 0, "C18/SAME-PARSER", "entry-versions", "-", "every parse of an index entry's version uses semver.NewVersion", "an index entry's version is parsed with StrictNewVersion at "+bad+": entries the index loader accepted ('v1.2.0', '1.3') are skipped there, so a lower version wins")
+}
+
+// c18FreshRead: what the index loader returns is what the file holds now: every success return of
+// LoadIndexFile lies behind a read of the file in this call (no memo keyed by size or time stamp).
+func c18FreshRead(w *World, r *Report) {
+	r.Rule("C18/FRESH-READ", "LoadIndexFile reads the index file on every call before it hands out an index", 1)
+	fn := w.Fn("pkg/repo", "LoadIndexFile")
+	if fn == nil {
+		r.Unk("C18/FRESH-READ", "anchor", "-", "repo.LoadIndexFile not found")
+		return
+	}
+	r.Fn(FuncName(fn))
+	g := FullGraph(fn)
+	var reads []ssa.Instruction
+	for _, f := range withAnon(fn) {
+		if f != fn {
+			continue
+		}
+		for _, c := range callInstrs(f) {
+			if cf, _ := calleeOf(c.Common()); cf != nil && fnPkgPath(cf) == "os" && (cf.Name() == "ReadFile" || cf.Name() == "Open") {
+				reads = append(reads, c)
+			}
+		}
+	}
+	n := 0
+	for i, rp := range g.classifyReturns() {
+		if rp.Class != RetSuccess {
+			continue
+		}
+		n++
+		ex, _ := g.PathExists(entryPos(fn), retPos(rp), avoidInstrs(reads...))
+		r.Check(!ex && len(reads) > 0, "C18/FRESH-READ", fmt.Sprintf("return#%d", i), w.InstrPos(rp.Ret), "the index handed out was read from the file in this call", "an index can be handed out without reading the file in this call (a cached parse): entries that were removed from the file are still offered and new versions are missing")
+	}
+	if n == 0 {
+		r.Unk("C18/FRESH-READ", "no-success", w.Pos(fn.Pos()), "no success return found")
+	}
+}
+
+// c18ResolveAlways: `helm dependency update` picks versions by resolving the declared ranges against
+// the index now: the download step is reached only through the resolver.
+func c18ResolveAlways(w *World, r *Report) {
+	r.Rule("C18/RESOLVE-ALWAYS", "Manager.Update reaches the download of dependencies only after resolving the declared version ranges (the resolver's ok-edge)", 1)
+	fn := w.Fn("pkg/downloader", "Manager.Update")
+	if fn == nil {
+		r.Unk("C18/RESOLVE-ALWAYS", "anchor", "-", "Manager.Update not found")
+		return
+	}
+	r.Fn(FuncName(fn))
+	g := FullGraph(fn)
+	ef := func(f *ssa.Function, name string, depth int) bool { return false }
+	_ = ef
+	var reaches func(f *ssa.Function, depth int, seen map[*ssa.Function]bool) bool
+	reaches = func(f *ssa.Function, depth int, seen map[*ssa.Function]bool) bool {
+		f = origin(f)
+		if f == nil || seen[f] || depth > 3 || len(f.Blocks) == 0 {
+			return false
+		}
+		seen[f] = true
+		if FuncName(f) == "(*internal/resolver.Resolver).Resolve" {
+			return true
+		}
+		for _, c := range callInstrs(f) {
+			if cf, _ := calleeOf(c.Common()); cf != nil && inHelm(cf) && reaches(cf, depth+1, seen) {
+				return true
+			}
+		}
+		return false
+	}
+	var resolves, downloads []ssa.CallInstruction
+	for _, c := range callInstrs(fn) {
+		cf, _ := calleeOf(c.Common())
+		if cf == nil || !inHelm(cf) {
+			continue
+		}
+		if reaches(cf, 0, map[*ssa.Function]bool{}) {
+			resolves = append(resolves, c)
+		}
+		if FuncName(origin(cf)) == "(*pkg/downloader.Manager).downloadAll" {
+			downloads = append(downloads, c)
+		}
+	}
+	if len(downloads) == 0 {
+		r.Unk("C18/RESOLVE-ALWAYS", "no-download", w.Pos(fn.Pos()), "Manager.Update does not call downloadAll")
+		return
+	}
+	for i, d := range downloads {
+		ok := false
+		for _, rs := range resolves {
+			if g.AfterOK(rs, posOf(d)) {
+				ok = true
+			}
+		}
+		r.Check(ok, "C18/RESOLVE-ALWAYS", fmt.Sprintf("download#%d", i+1), w.InstrPos(d), "the dependencies are downloaded only after the ranges were resolved", "dependencies can be downloaded without resolving the declared ranges in this run (versions reused from the lock file): a higher version that satisfies the range and is in the index is not picked")
+	}
 }
